@@ -34,6 +34,17 @@ impl DetectProp for C02 {
                 c.sett.chunk = usize::MAX / 8;
             }
             3 => c.bytes = vec![],
+            5 => {
+                // code points at the edges of the block table / planes, in every encoding that carries them
+                let t = unicode_extremes_text(rng);
+                let e = *rng.pick(&["utf-8", "utf-8", "gb18030", "utf-16le", "utf-16be"]);
+                let mut b = mark_of(e).filter(|_| e.starts_with("utf-16") || rng.chance(1, 3)).map(|m| m.to_vec()).unwrap_or_default();
+                b.extend(enc_bytes(&t, e).unwrap_or_else(|| t.as_bytes().to_vec()));
+                c.bytes = b;
+                c.sett.incl.clear();
+                c.sett.excl.clear();
+                c.tag = format!("unicode-extremes:{}", e);
+            }
             4 => {
                 let (_, m) = *rng.pick(MARKS);
                 c.bytes = m.to_vec();
